@@ -50,6 +50,8 @@ type Flat struct {
 	// Inl / Alias are set by virtual inlining (inline.go): origin of spliced nodes, parameter -> argument bindings
 	Inl   map[int]InlInfo
 	Alias map[types.Object]ast.Expr
+	// noInline: functions whose calls are never spliced in
+	noInline map[string]bool
 }
 
 func (p *Prog) mayReturn(pkg *packages.Package) func(*ast.CallExpr) bool {
